@@ -20,6 +20,7 @@ def union_intervals(rollset):
     return sorted(out)
 
 
+@guarded
 def check(r, family):
     inp = {"family": family}
     want_roll, want_dur, sig_union = set(), 0, []
